@@ -10,8 +10,20 @@ spec fn sorted_by_start(ds: Seq<Diagnostic>) -> bool {
     forall |i: int, j: int| 0 <= i < j < ds.len() ==> key_le(start_key(#[trigger] ds[i]), start_key(#[trigger] ds[j]))
 }
 
+// the qualified names of a file's own import / forward-declaration statements (what the resolver is handed)
+spec fn qnames(imps: Seq<ast::Import>, n: int) -> Set<String>
+    decreases n
+{ if n <= 0 { Set::<String>::empty() } else { qnames(imps, n - 1).insert(string_of(import_qname(imps[n - 1]))) } }
+// oneway propagation: the only thing that happens to the tree after resolution
+spec fn tree_propagated(a1: ast::Aidl, a2: ast::Aidl) -> bool {
+    a2 == (ast::Aidl { item: a2.item, ..a1 }) && match (a1.item, a2.item) {
+        (ast::Item::Interface(i1), ast::Item::Interface(i2)) => oneway_propagated(i1, i2),
+        _ => a2.item == a1.item,
+    }
+}
+
 // the result for one file is constrained by (id, stored result, key -> kind map) only
-spec fn file_post<ID>(id: ID, fr: ParseFileResult<ID>, defined: Map<String, ResolvedItemKind>, out_id: ID, out: ParseFileResult<ID>) -> bool {
+spec fn file_post<'a, ID>(id: ID, fr: ParseFileResult<ID>, defined: Map<String, ResolvedItemKind>, out_id: ID, out: ParseFileResult<ID>) -> bool {
     // C01: keyed and tagged by the caller's id
     &&& out_id == id && out.id == fr.id
     // no tree: handed back untouched (C03: a result without a tree keeps its Errors)
@@ -32,4 +44,23 @@ spec fn file_post<ID>(id: ID, fr: ParseFileResult<ID>, defined: Map<String, Reso
     &&& (fr.ast is Some ==> exists |d2: Seq<Diagnostic>, d3: Seq<Diagnostic>, ts: Seq<ast::Type>|
             #[trigger] appended(d2, d3, containers_expect(ts, ts.len() as int))
             && ts == types_of(out.ast->0) && prefix_kept(fr.diagnostics@, d2))
+    // pipeline (C05): the returned tree is the stored tree with every type node, at every depth, resolved as the per-node
+    // rules allow against the file's own import / forward-declaration names and the key -> kind map (then
+    // oneway-propagated), and the 'unknown type' Errors - one per unknown name - are appended first
+    &&& (fr.ast is Some ==> exists |a1: ast::Aidl, d1: Seq<Diagnostic>, pre: Seq<Diagnostic>, ins: Set<String>, dns: Set<String>|
+            ins == qnames(fr.ast->0.imports@, fr.ast->0.imports@.len() as int)
+            && dns == qnames(fr.ast->0.declared_parcelables@, fr.ast->0.declared_parcelables@.len() as int)
+            && #[trigger] aidl_rel(resolve_rel(ins, dns, defined), fr.ast->0, a1) && tree_propagated(a1, out.ast->0)
+            && #[trigger] appended(fr.diagnostics@, d1, unknown_errs(types_pre_of(fr.ast->0), types_pre_of(fr.ast->0).len() as int, ins, dns, defined))
+            && prefix_kept(d1, pre) && #[trigger] pre.to_multiset() == out.diagnostics@.to_multiset())
+    // pipeline (C06): the import and forward-declaration diagnostics are computed against a set that holds exactly the
+    // keys of the kinds of the returned tree's type nodes (at every depth)
+    &&& (fr.ast is Some ==> exists |res: Set<String>, d4: Seq<Diagnostic>, d5: Seq<Diagnostic>, d6: Seq<Diagnostic>, imap: Map<String, &'a ast::Import>, pre: Seq<Diagnostic>,
+                                   is: Seq<ast::Import>, ds: Seq<ast::Import>|
+            is == out.ast->0.imports@ && ds == out.ast->0.declared_parcelables@
+            && #[trigger] imports_post(is, res, defined, d4, d5, imap)
+            && import_map_ok(is, is.len() as int, imap)
+            && #[trigger] decls_post(ds, imap, res, d5, d6)
+            && coupled(kinds_pre_of(out.ast->0), res) && prefix_kept(fr.diagnostics@, d4)
+            && prefix_kept(d6, pre) && #[trigger] pre.to_multiset() == out.diagnostics@.to_multiset())
 }
